@@ -47,8 +47,9 @@ Definition umul (m : mmode) (a b : Z) : outcome Z :=
   else match m with Release => Ok ((a * b) mod USZ) | Checked => Panic end.
 
 Definition zlen {A} (l : list A) : Z := Z.of_nat (length l).
+(* slice::get; the range test comes first so that no huge unary number is ever built *)
 Definition zget {A} (l : list A) (i : Z) : option A :=
-  if i <? 0 then None else nth_error l (Z.to_nat i).
+  if (i <? 0) || (zlen l <=? i) then None else nth_error l (Z.to_nat i).
 
 Fixpoint zrange (a : Z) (c : nat) : list Z :=
   match c with O => [] | S c' => a :: zrange (a + 1) c' end.
